@@ -130,11 +130,13 @@ Theorem C09_index_bucket_schedule_complete :
 Proof. exact bucket_fuel_enough. Qed.
 Print Assumptions C09_index_bucket_schedule_complete.
 
-(* Resume: default header limit for the version probe, configured one for the payload header,
-   go-cid's constant for every CID read straight from the file *)
+(* Resume (OpenReadWrite / OpenReadableWritable on arbitrary existing bytes): every buffer is within the
+   CONFIGURED header limit (the version probe and the payload header; repaired, the probe used to run
+   under the 32 MiB default: notes/fixes/C09-resume-version-probe-limit.patch) or within go-cid's
+   constant (every CID read straight from the file) *)
 Theorem C09_resume_buffers_bounded :
   forall hdrdec k can_truncate o roots file faults,
-    Forall (fun a => a <= default_maxh \/ a <= w_maxh o \/ a <= max_digest_alloc)
+    Forall (fun a => a <= w_maxh o \/ a <= max_digest_alloc)
            (resume_allocs hdrdec k can_truncate o roots file faults).
 Proof. exact resume_allocs_bound. Qed.
 Print Assumptions C09_resume_buffers_bounded.
@@ -367,20 +369,22 @@ Theorem C09_next_skipnext_buffers_bounded :
 Proof. exact brp_run_allocs_bound. Qed.
 Print Assumptions C09_next_skipnext_buffers_bounded.
 
-(* ---- (10) Resume's version probe runs under the DEFAULT header limit -------------------------------------- *)
-(* refuted: "OpenReadWrite rejects a first header over the configured MaxAllowedHeaderSize before allocating":
-   with a 1 KiB limit, four bytes declaring 24 MiB make the probe request 24 MiB and fail with unexpected EOF
-   (store.ResumableVersion calls ReadVersion without the caller's options; known finding
-   resume-first-header-over-limit, corpus/C09/resume-first-header-over-limit.case).  What does hold for every
-   input is C09_resume_buffers_bounded above: that buffer is within default_maxh (32 MiB), the payload
-   header's within the configured limit. *)
-Theorem C09_resume_version_probe_ignores_header_limit_refuted :
-  exists hdrdec o roots file a,
-    resume_allocs hdrdec KBlockstore true o roots file [] = [a] /\ w_maxh o < a /\
-    tot_resume hdrdec o roots file = TErr EUnexpectedEof.
-Proof.
-  exact (ex_intro _ _ (ex_intro _ _ (ex_intro _ _ (ex_intro _ _ (ex_intro _ _
-    (conj (proj1 resume_probe_over_limit)
-          (conj (proj2 (proj2 resume_probe_over_limit)) (proj1 (proj2 resume_probe_over_limit))))))))).
-Qed.
-Print Assumptions C09_resume_version_probe_ignores_header_limit_refuted.
+(* ---- (10) Resume's version probe obeys the configured header limit (repaired) ------------------------------ *)
+(* for EVERY input and option set: a first header that declares more than MaxAllowedHeaderSize makes
+   OpenReadWrite / OpenReadableWritable fail with ErrHeaderTooLarge and NOTHING is requested.  Before
+   notes/fixes/C09-resume-version-probe-limit.patch the probe ran under the 32 MiB default (with a 1 KiB limit,
+   four bytes declaring 24 MiB requested 24 MiB and failed with unexpected EOF:
+   corpus/C09/resume-first-header-over-limit.case, now a regression case). *)
+Theorem C09_resume_first_header_over_limit_rejected :
+  forall hdrdec k can_truncate o roots l rest faults,
+    l < two63 -> w_maxh o < l ->
+    resume_allocs hdrdec k can_truncate o roots (put_uv l ++ rest) faults = [] /\
+    exists dv, resume hdrdec k can_truncate o roots (put_uv l ++ rest) faults = inr (EHeaderTooLarge, dv).
+Proof. exact resume_first_header_over_limit. Qed.
+Print Assumptions C09_resume_first_header_over_limit_rejected.
+(* non-vacuity: the former witness *)
+Theorem C09_resume_first_header_over_limit_example :
+  resume_allocs dec_header_canon KBlockstore true probe_wopts [] probe_file [] = [] /\
+  tot_resume dec_header_canon probe_wopts [] probe_file = TErr EHeaderTooLarge.
+Proof. exact resume_probe_over_limit. Qed.
+Print Assumptions C09_resume_first_header_over_limit_example.
